@@ -44,7 +44,7 @@ def variations(P):
     nw = P["net_nuclear_winter"]
     for sc in ("seaweed", "methane_scp", "cellulosic_sugar", "relocated_crops", "greenhouse", "industrial_foods"):
         V["nw_" + sc] = dict(nw, scenario=sc)
-    for sh in ("immediate", "one_month_delayed_shutoff", "short_delayed_shutoff", "continued"):
+    for sh in ("immediate", "one_month_delayed_shutoff", "short_delayed_shutoff", "long_delayed_shutoff", "continued"):
         V["nw_shutoff_" + sh] = dict(nw, shutoff=sh)
     V["nw_no_stored_food"] = dict(nw, stored_food="zero")
     V["nw_dont_eat_culled"] = dict(nw, cull="dont_eat_culled")
@@ -85,7 +85,7 @@ def to_global(s):
 # (SGP: the only country without crop land; MUS: an island state where the feed round can yield less meat than no feed;
 #  URY: a meat exporter where the final feed top-up meets a binding, non-zero feed demand; MNG: herds that live on grass, the
 #  feed round's meat is re-timed; BTN: no feed or biofuel demand at all)
-QUICK_CC = ["ARG", "USA", "IND", "CHN", "NZL", "DJI", "LSO", "EST", "SLV", "ECU", "JPN", "ZAF", "SGP", "MUS", "URY", "MNG", "BTN", "WOR"]
+QUICK_CC = ["ARG", "USA", "IND", "CHN", "NZL", "DJI", "LSO", "EST", "SLV", "ECU", "JPN", "ZAF", "SGP", "MUS", "URY", "MNG", "BTN", "AUS", "WOR"]
 QUICK_PRESETS = ["net_baseline", "net_nuclear_winter", "net_nuclear_resilient", "net_nuclear_resilient_more_area",
                  "ms_worst", "ms_simple_ration", "ms_example_res"]
 
@@ -145,6 +145,8 @@ def jobs(tier, seed=0):
     for cc in ("LSO", "MNG"):
         res.append(dict(cc=cc, preset="base_harsh_72m", options=dict(copy.deepcopy(P["net_baseline"]), NMONTHS=72, **harsh)))
     res.append(dict(cc="MNG", preset="nw_long_delayed_shutoff", options=dict(copy.deepcopy(P["net_nuclear_winter"]), shutoff="long_delayed_shutoff")))
+    # a country without pasture under a delayed shut-off (after it the herds get neither feed nor grass)
+    res.append(dict(cc="BGD", preset="nw_shutoff_long_delayed_shutoff", options=copy.deepcopy(V["nw_shutoff_long_delayed_shutoff"])))
     # a short horizon that ends while crops are still depressed, with demand alive in the last month
     for cc in ("USA", "DNK"):
         res.append(dict(cc=cc, preset="nw_48m", options=copy.deepcopy(V["nw_48m"])))
